@@ -104,6 +104,14 @@ extern "C" void verif_harness() {
     vector<bool> isBp(L, false); vector<size_t> bps; for (int i = 1; i < L; i++) if (__sym_choose(("break" + to_string(i)).c_str(), 0, 1)) { isBp[i] = true; bps.push_back(i); }
     auto al = make_shared<Alpha>(n); auto tr = make_shared<Trans>(al, P, eq); auto em = make_shared<Emis>(al, E);
     double tot; VV acc; enumerate(P, eq, E, isBp, tot, acc);
+#ifdef LOWMEM_ONLY
+    if (which == 0) {
+      // ---- low-memory algorithm alone (longer sequences): every chunk size against path enumeration ----
+      int chunk = __sym_choose("chunk", 1, L + 1);
+      LowMemoryRescaledHmmLikelihood lm(al, tr, em, "", (size_t)chunk); lm.setBreakPoints(bps);
+      SYM_ASSERT_EQ(exp(lm.getLogLikelihood()), tot, "low-memory algorithm: likelihood differs from the sum over hidden paths");
+      return; }
+#endif
     if (which == 0) {
       // ---- rescaled and low-memory algorithms ----
       RescaledHmmLikelihood r(al, tr, em, ""); r.setBreakPoints(bps);
